@@ -90,15 +90,37 @@ class SliceOracle:
     `wfn(resp)` is the weight (1 for unweighted).
     """
 
-    def __init__(self, rows, cols, dataset, restrict=None, ca=None):
+    def __init__(self, rows, cols, dataset, restrict=None, ca=None, data=None,
+                 row_groups=None, col_groups=None):
         self.rows = rows
         self.cols = cols
         self.ca = ca  # None | ("items_x_cats", var, vi) | ("cats_x_items", var, vi)
-        self.data = [r for r in dataset if restrict is None or restrict(r)]
+        self.data = data if data is not None else [
+            r for r in dataset if restrict is None or restrict(r)]
+        # element index -> list of base element indexes (a merged category has several)
+        self.row_groups = row_groups or [[k] for k in range(len(rows))]
+        self.col_groups = col_groups or [[k] for k in range(len(cols))]
+        self.n_base_rows = len(rows)
+        self.n_base_cols = len(cols)
+
+    @property
+    def nrows(self):
+        return len(self.row_groups)
+
+    @property
+    def ncols(self):
+        return len(self.col_groups)
+
+    def with_groups(self, row_groups, col_groups):
+        """Same respondents, extra merged elements appended after the base elements."""
+        o = SliceOracle(self.rows, self.cols, None, ca=self.ca, data=self.data,
+                        row_groups=[[k] for k in range(len(self.rows))] + [list(g) for g in row_groups],
+                        col_groups=[[k] for k in range(len(self.cols))] + [list(g) for g in col_groups])
+        return o
 
     # predicates for cell (i, j) -------------------------------------------------
-    def _preds(self, r, i, j):
-        """(member_row, valid_row, member_col, valid_col) for respondent r in cell i,j"""
+    def _base_preds(self, r, i, j):
+        """(member_row, valid_row, member_col, valid_col) for respondent r in base cell"""
         if self.ca is None:
             return (self.rows.member(r, i), self.rows.valid(r, i),
                     self.cols.member(r, j), self.cols.valid(r, j))
@@ -111,6 +133,19 @@ class SliceOracle:
         a = r[0][vi][j]
         ok = a in vids
         return (a == vids[i], ok, True, ok)
+
+    def _preds(self, r, i, j):
+        """Predicates for (possibly merged) elements i, j: a respondent belongs to a merged
+        category when it belongs to any of its addends."""
+        ra, cb = self.row_groups[i], self.col_groups[j]
+        if len(ra) == 1 and len(cb) == 1:
+            return self._base_preds(r, ra[0], cb[0])
+        mr = vr = mc = vc = False
+        for a in ra:
+            for b in cb:
+                p = self._base_preds(r, a, b)
+                mr, vr, mc, vc = mr or p[0], vr or p[1], mc or p[2], vc or p[3]
+        return (mr, vr, mc, vc)
 
     def cell(self, i, j, weighted=True):
         """dict count,row_base,col_base,table_base for one cell."""
@@ -129,14 +164,14 @@ class SliceOracle:
         return {"count": c, "row_base": rb, "col_base": cb, "table_base": tb}
 
     def matrix(self, what, weighted=True):
-        return [[self.cell(i, j, weighted)[what] for j in range(len(self.cols))]
-                for i in range(len(self.rows))]
+        return [[self.cell(i, j, weighted)[what] for j in range(self.ncols)]
+                for i in range(self.nrows)]
 
     def all(self, weighted=True):
         out = {k: [] for k in ("count", "row_base", "col_base", "table_base")}
-        for i in range(len(self.rows)):
+        for i in range(self.nrows):
             rowvals = {k: [] for k in out}
-            for j in range(len(self.cols)):
+            for j in range(self.ncols):
                 c = self.cell(i, j, weighted)
                 for k in out:
                     rowvals[k].append(c[k])
